@@ -1,4 +1,4 @@
-CONSTANTS MaxTxn = 3 MaxRec = 4 MaxFaults = 2 Reload = FALSE Bump = TRUE OnePerRequest = TRUE Driver = FALSE
+CONSTANTS MaxTxn = 3 MaxRec = 4 MaxFaults = 2 AbortAttempted = TRUE Reload = FALSE Bump = TRUE OnePerRequest = TRUE Driver = FALSE
 SPECIFICATION Spec
 VIEW view
 INVARIANTS CommitMeansVisible AbortMeansNever FailedNeverVisible NoOrphan
